@@ -1,4 +1,5 @@
 import RemocModel.Link.Inv
+import RemocModel.Link.ReceiverInv
 import RemocModel.Props.C02
 import RemocModel.Link.Shared
 set_option linter.unusedSimpArgs false
@@ -311,6 +312,43 @@ theorem no_slot_without_credit (c : Cfg) (st : State) (x : Xfer) (hcur : st.s.cu
     (hheld : st.s.held = 0) : step c st .emit = none := by
   simp only [step, hcur]
   cases x <;> simp [Xfer.ready, hheld]
+
+/-! ### a declined message still returns its credit
+
+A receiver that answers `Received::Chunks` by calling `recv_any` again declines the rest of that message.  This is
+outside the LTS (`recvAny` is disabled while a chunked message is read), but the statement is one about the function
+`recvAnyStep` alone, for an arbitrary receiver state: every data chunk taken from the queue that does not start a new
+message while no data message is being assembled is discarded, returns nothing to the caller, and its whole cost
+leaves `used` and is either kept in `toReturn` or sent back.  (Seeded change C03-m3 returns the credit only for chunks
+that are kept.) -/
+theorem declined_chunk_returns_credit (c : Cfg) (r r' : Receiver) (bk : List Back) (p : Bytes) (last : Bool)
+    (out : Option Out) (hr : ∀ bufs, r.receiving ≠ .data bufs)
+    (h : recvAnyStep c r = some (r', bk, .data p false last, out)) :
+    out = none ∧ r'.receiving = .nothing ∧ r'.used = r.used - max 1 p.length ∧
+    r'.toReturn + backSum bk = r.toReturn + max 1 p.length := by
+  have ha := recvAnyStep_acct c r r' bk _ out h
+  have hs := recvAnyStep_sem c r r' bk _ out h
+  have hf : anyFrame c r.receiving (.data p false last) = (.nothing, none) := by
+    simp only [anyFrame]
+    cases hrec : r.receiving with
+    | data bufs => exact absurd hrec (hr bufs)
+    | nothing => simp
+    | chunks a b => simp
+    | requests ids => simp
+  refine ⟨?_, ?_, ?_, ?_⟩
+  · rw [hs.2.2.1, hf]
+  · rw [hs.2.1, hf]
+  · simpa [Frame.cost] using ha.2.1
+  · simpa [Frame.cost] using ha.2.2.1
+
+/-- the premises are met: after `Received::Chunks` (third chunk crosses `maxData = 8`) the next `recv_any` iteration
+discards the fourth chunk and hands its 4 credits back -/
+example :
+    let c : Cfg := { chunk := 4, limit := 16, maxData := 8, maxPorts := 8 }
+    let r : Receiver := { used := 4, toReturn := 4, portq := [.data [1, 2, 3, 4] false true],
+                          receiving := .chunks [[9, 9, 9, 9]] false }
+    (recvAnyStep c r).map (fun x => (x.2.1, x.2.2.2, x.1.used, x.1.toReturn)) = some ([.credits 8], none, 0, 0) := by
+  decide
 
 /-! ### non-vacuity -/
 
